@@ -32,6 +32,7 @@ type SolverStats struct {
 	Restarts                     int
 	Fallbacks                    int
 	Errors                       int
+	SendTime, ValueTime          time.Duration
 }
 
 type Solver struct {
@@ -139,6 +140,8 @@ func (s *Solver) Restart() error {
 }
 
 func (s *Solver) send(line string) {
+	t0 := time.Now()
+	defer func() { s.stats.SendTime += time.Since(t0) }()
 	if s.log != nil {
 		io.WriteString(s.log, line+"\n")
 	}
@@ -351,6 +354,8 @@ func (s *Solver) GetValues(atoms []*Term, m *Model) bool {
 	if len(atoms) == 0 {
 		return true
 	}
+	t0 := time.Now()
+	defer func() { s.stats.ValueTime += time.Since(t0) }()
 	if s.fbActive {
 		for _, a := range atoms {
 			m.vals[a.id] = s.fbVals[a.id]
